@@ -112,24 +112,76 @@ def run_solver(name, text, timeout, workdir):
 
 
 def check(ctx, ob, timeout, workdir, model_terms=(), order=('z3new', 'z3', 'cvc5')):
-    """returns dict(status, solver, time, output)"""
+    """returns dict(status, solver, time, output).  Stage 1: z3-new with a short limit; stage 2: race all solvers."""
     if getattr(ob, 'trivial', False):
         return {'status': 'unsat', 'solver': 'trivial', 'time': 0.0, 'output': ''}
     text = emit(ctx, ob, model_terms)
-    total = 0.0
-    last = None
-    for s in order:
-        txt = text
-        if s == 'cvc5':
-            txt = emit(ctx, ob, model_terms, for_cvc5=True)
-        st, outp, dt = run_solver(s, txt, timeout, workdir)
-        total += dt
-        if st == 'unsat':
-            return {'status': 'unsat', 'solver': s, 'time': total, 'output': ''}
-        if st == 'sat':
-            return {'status': 'sat', 'solver': s, 'time': total, 'output': outp, 'smt': text}
-        last = (st, s, outp)
-    return {'status': last[0] if last[0] in ('unknown', 'timeout') else 'unknown', 'solver': last[1], 'time': total, 'output': last[2][:2000], 'smt': text}
+    t0 = time.time()
+    first = order[0]
+    quick = min(2, timeout)
+    st, outp, dt = run_solver(first, text if first != 'cvc5' else emit(ctx, ob, model_terms, for_cvc5=True), quick, workdir)
+    if st == 'unsat':
+        return {'status': 'unsat', 'solver': first, 'time': dt, 'output': ''}
+    if st == 'sat':
+        return {'status': 'sat', 'solver': first, 'time': dt, 'output': outp, 'smt': text}
+    if len(order) == 1 and timeout <= quick:
+        return {'status': st if st in ('unknown', 'timeout') else 'unknown', 'solver': first, 'time': dt, 'output': outp[:2000], 'smt': text}
+    results = {}
+    procs = {}
+    import threading
+    lock = threading.Lock()
+    done = threading.Event()
+
+    def runone(sname):
+        txt = emit(ctx, ob, model_terms, for_cvc5=True) if sname == 'cvc5' else text
+        h = hashlib.sha1(txt.encode('utf8')).hexdigest()[:16]
+        path = os.path.join(workdir, '%s_%s_r.smt2' % (h, sname))
+        with open(path, 'w') as f:
+            f.write(txt)
+        try:
+            p = subprocess.Popen(SOLVERS[sname](path, timeout), stdout=subprocess.PIPE, stderr=subprocess.PIPE)
+            with lock:
+                procs[sname] = p
+            try:
+                o, _ = p.communicate(timeout=timeout + 5)
+                o = o.decode('utf8', 'replace')
+            except subprocess.TimeoutExpired:
+                p.kill()
+                o = 'timeout'
+        finally:
+            try:
+                os.unlink(path)
+            except OSError:
+                pass
+        f1 = o.strip().split('\n')[0].strip() if o.strip() else 'error'
+        with lock:
+            results[sname] = (f1, o)
+            if f1 in ('sat', 'unsat'):
+                done.set()
+            if len(results) == len(order):
+                done.set()
+    ths = [threading.Thread(target=runone, args=(sn,)) for sn in order]
+    for th in ths:
+        th.daemon = True
+        th.start()
+    done.wait(timeout + 10)
+    with lock:
+        for sn, p in procs.items():
+            if p.poll() is None and sn not in results:
+                try:
+                    p.kill()
+                except OSError:
+                    pass
+        snap = dict(results)
+    total = time.time() - t0
+    for sn, (f1, o) in snap.items():
+        if f1 == 'unsat':
+            return {'status': 'unsat', 'solver': sn, 'time': total, 'output': ''}
+    for sn, (f1, o) in snap.items():
+        if f1 == 'sat':
+            return {'status': 'sat', 'solver': sn, 'time': total, 'output': o, 'smt': text}
+    outs = '; '.join('%s: %s' % (sn, f1[:80]) for sn, (f1, o) in snap.items())
+    return {'status': 'unknown', 'solver': 'portfolio', 'time': total, 'output': outs, 'smt': text}
 
 
 def check_sat(ctx, pc, nassert, timeout, workdir):
